@@ -20,7 +20,7 @@ RULE = (
     "non-trivial = max_nodes set and more batches than max_nodes, or a batch with more jobs than workers; distinct "
     "by hash of (scenario, schedule)"
 )
-RULE += " Later additions (DESIGN.md 9): " + 'persistent sbatch failures, squeue outages of 1-3 retry windows, poll intervals of 1 s / 1 min / 5 min, up to 2 operator rounds bound to the end of batches.'
+RULE += " Later additions (DESIGN.md 9): " + 'persistent sbatch failures, squeue outages of 1-3 retry windows, poll intervals of 1 s / 1 min / 5 min, up to 2 operator rounds bound to the end of batches; round 7: poll intervals are now effective (the harness no longer sets a 1 s monitor interval that lowered them), a busy cluster (batches stay PENDING 0 / 90 / 600 / 3600 virtual seconds), a wide family (8-14 nearly independent jobs, 1-2 per batch, max_nodes 2-5, poll 60/300 s, at least one failing scheduler command), a scheduler rejecting every 2nd/3rd batch for good, squeue honouring -p.'
 ASSUMPTIONS = C.WORLD_ASSUMPTIONS
 setup, teardown = C.setup, C.teardown
 
